@@ -162,7 +162,8 @@ def header_offsets(frames):
 
 # ---------------------------------------------------------------------------
 # drivers
-DRIVERS = ("frame", "data_frame", "data", "recv")
+DRIVERS = ("frame", "data_frame", "data", "recv", "next", "iter")
+RECVS = ("recv", "next", "iter")  # the message-level routes: recv(), next(ws), `for message in ws`
 
 
 def drive(ws, fs, driver, cf=False, max_calls=400, stop_on_timeout=False, resume=False):
@@ -174,6 +175,7 @@ def drive(ws, fs, driver, cf=False, max_calls=400, stop_on_timeout=False, resume
 
     events = []
     calls = 0
+    it = None
     while calls < max_calls:
         calls += 1
         before = ws.connected
@@ -188,10 +190,22 @@ def drive(ws, fs, driver, cf=False, max_calls=400, stop_on_timeout=False, resume
                 op, data = ws.recv_data(cf)
                 val = ("D", op, _b(data))
             else:
-                r = ws.recv()
+                if driver == "next":
+                    r = next(ws) if calls % 2 else ws.next()
+                elif driver == "iter":
+                    if it is None:
+                        it = iter(ws)
+                    try:
+                        r = next(it)
+                    except BaseException:
+                        it = None  # a generator that raised is finished: the application starts a new loop
+                        raise
+                else:
+                    r = ws.recv()
                 val = ("R", type(r).__name__, r if isinstance(r, str) else _b(r))
             events.append(("ret", val, fs.consumed, len(fs.writes())))
-        except websocket.WebSocketTimeoutException:
+        except (websocket.WebSocketTimeoutException, BlockingIOError):
+            # (BlockingIOError: the transport is non-blocking, timeout 0, and had nothing to deliver yet)
             events.append(("timeout", fs.consumed, ws.connected == before, ws.sock is fs and not fs.closed))
             if stop_on_timeout:
                 break
@@ -210,7 +224,7 @@ def drive(ws, fs, driver, cf=False, max_calls=400, stop_on_timeout=False, resume
 
 def _b(x):
     if isinstance(x, str):
-        return x.encode("latin-1", "replace")  # never expected; keeps comparison total
+        return ("str-where-bytes-expected", x)  # never equal to the reference payload
     return bytes(x)
 
 
